@@ -148,28 +148,13 @@ class Buffer:
               
             
         else:  # RIGHT padding
-            temp_content = b'\x00' + self.content
-            new_content = bytes()
-            shift_bits = shift % 8
-            
-            if shift_bits > 0:
-                carry_mask = (1 << shift_bits) - 1
-                for i in range(len(temp_content) - 1):
-                    current_byte = temp_content[i]
-                    next_byte = temp_content[i + 1]
-                    new_byte = ((current_byte >> shift_bits) & 0xFF) | \
-                            ((next_byte & carry_mask) << (8 - shift_bits))
-                    new_content += new_byte.to_bytes(1, 'big')
-                    
-                # Handle last byte
-                last_byte = temp_content[-1] >> shift_bits
-                if last_byte:
-                    new_content += last_byte.to_bytes(1, 'big')
-            else:
-                new_content += temp_content
-            
-            # Take required bytes
-            self.content = bytes(new_content[:new_byte_length])
+            # dropping the last bits only moves the padding boundary
+            new_content = self.content[:new_byte_length]
+            new_padding_length: int = _calculate_padding_length(new_length)
+            if new_padding_length > 0:
+                last_byte = new_content[-1] & (0xff << new_padding_length) & 0xff
+                new_content = new_content[:-1] + last_byte.to_bytes(1, 'big')
+            self.content = bytes(new_content)
         
         self.length = new_length
         self._update_padding()
